@@ -225,7 +225,7 @@ impl CanonicalRequest {
 //@ fn canonical.rs impl CanonicalRequest :: get_auth_parameters_from_auth_header
 //@ params auth_header
 //@ hideutf8
-//@ props C08 C19 C13 C02 C17
+//@ props C08 C19 C13 C02 C17 C01 C03 C04 C05 C11 C16 C18
 //@ ret r
 //   (the parameter `auth_header` is shadowed by its trimmed version; renamed so that loop invariants can still name the parameter)
 //@ replace 1 `let auth_header = trim_ascii(auth_header);` => `let auth_header_t = trim_ascii(auth_header);`
@@ -246,7 +246,7 @@ impl CanonicalRequest {
     requires self.wf()
     ensures
         self.header_carrier_fails(auth_header@) ==> r is Err && r->Err_0 is IncompleteSignature, //# C13 C19 name=rules_6a_6b_6d_incomplete_signature
-        !self.header_carrier_fails(auth_header@) ==> r is Ok && self.header_carrier_ok(auth_header@, r->Ok_0), //# C19 C02 C13 C11 name=last_parameter_first_date_first_token
+        !self.header_carrier_fails(auth_header@) ==> r is Ok && self.header_carrier_ok(auth_header@, r->Ok_0), //# C19 C02 C13 C11 C01 name=last_parameter_first_date_first_token
 //@ bodystart
     hide(bmap);
     hide(hmap);
@@ -298,12 +298,12 @@ impl CanonicalRequest {
     }
 //@ before 1 `Ok(AuthParams {`
     proof {
-        assert(builder.credential is Some && builder.credential->Some_0@ == latin1(m[K_CREDENTIAL()]));
-        assert(builder.signature is Some && builder.signature->Some_0@ == latin1(m[K_SIGNATURE()]));
-        assert(self.header_date() is Some && timestamp_str@ == latin1(self.header_date()->Some_0));
+        assert(builder.credential is Some && builder.credential->Some_0@ == latin1(m[K_CREDENTIAL()])); //# C03 C02 C19 name=credential_is_the_credential_parameter
+        assert(builder.signature is Some && builder.signature->Some_0@ == latin1(m[K_SIGNATURE()])); //# C01 C19 name=signature_is_the_signature_parameter
+        assert(self.header_date() is Some && timestamp_str@ == latin1(self.header_date()->Some_0)); //# C04 C16 C02 C19 name=timestamp_text_is_x_amz_date_else_date
         assert(builder.request_timestamp is None && builder.canonical_request_sha256 is None);
         assert(self.first_header(H_X_AMZ_SECURITY_TOKEN()) is None ==> builder.session_token is None);
-        assert(is_sorted_names(vals_bytes(signed_headers@), Seq::new(split(m[K_SIGNED_HEADERS()], 0x3b).len(), |i: int| str_bytes(latin1(split(m[K_SIGNED_HEADERS()], 0x3b)[i])))));
+        assert(is_sorted_names(vals_bytes(signed_headers@), Seq::new(split(m[K_SIGNED_HEADERS()], 0x3b).len(), |i: int| str_bytes(latin1(split(m[K_SIGNED_HEADERS()], 0x3b)[i]))))); //# C05 C11 C01 C19 name=signed_list_is_the_sorted_signedheaders_parameter
     }
 //@ end
 }
@@ -359,7 +359,7 @@ impl CanonicalRequest {
 //@ fn canonical.rs impl CanonicalRequest :: get_auth_parameters_from_query_parameters
 //@ params query_alg
 //@ hideutf8
-//@ props C08 C19 C13 C02 C17
+//@ props C08 C19 C13 C02 C17 C01 C03 C04 C05 C11 C16 C18
 //@ ret r
 //@ replace 1 `unescaped_signed_headers.split(';').map(|s| s.to_string()).collect::<Vec<String>>()` => `string_split_to_strings(&unescaped_signed_headers, ';')`
 //@ replace 1 `signed_headers.sort();` => `sort_strings(&mut signed_headers);`
@@ -368,7 +368,7 @@ impl CanonicalRequest {
     ensures
         query_alg.spec_bytes() != ALGO() ==> r is Err && r->Err_0 is MissingAuthenticationToken, //# C13 C19 name=rule_7a_wrong_algorithm
         query_alg.spec_bytes() == ALGO() && self.query_carrier_missing() ==> r is Err && r->Err_0 is IncompleteSignature, //# C13 C19 name=rule_7d_missing_parameter
-        query_alg.spec_bytes() == ALGO() && !self.query_carrier_missing() ==> r is Ok && self.query_carrier_ok(r->Ok_0), //# C19 C02 C11 name=first_value_of_each_parameter_decoded
+        query_alg.spec_bytes() == ALGO() && !self.query_carrier_missing() ==> r is Ok && self.query_carrier_ok(r->Ok_0), //# C19 C02 C11 C13 C01 name=first_value_of_each_parameter_decoded
 //@ bodystart
     hide(qmap);
     broadcast use axiom_contains_str_key, axiom_maps_str_key_to_value, axiom_string_of_str_bytes, axiom_string_key_model;
@@ -385,13 +385,13 @@ impl CanonicalRequest {
     let ghost names0 = vals_bytes(signed_headers@);
 //@ before 1 `Ok(AuthParams {`
     proof {
-        assert(builder.credential is Some && builder.credential->Some_0@ == latin1(self.first_query_decoded(Q_CREDENTIAL())));
-        assert(builder.signature is Some && str_bytes(builder.signature->Some_0@) == self.first_query(SIG())->Some_0);
-        assert(timestamp_str@ == latin1(self.first_query_decoded(Q_DATE())));
-        assert(self.first_query(Q_SECURITY_TOKEN()) is None ==> builder.session_token is None);
+        assert(builder.credential is Some && builder.credential->Some_0@ == latin1(self.first_query_decoded(Q_CREDENTIAL()))); //# C03 C02 C19 name=credential_is_the_first_decoded_x_amz_credential
+        assert(builder.signature is Some && str_bytes(builder.signature->Some_0@) == self.first_query(SIG())->Some_0); //# C01 C19 name=signature_is_the_first_x_amz_signature
+        assert(timestamp_str@ == latin1(self.first_query_decoded(Q_DATE()))); //# C04 C16 C02 C19 name=timestamp_text_is_the_first_decoded_x_amz_date
+        assert(self.first_query(Q_SECURITY_TOKEN()) is None ==> builder.session_token is None); //# C19 C03 name=no_token_parameter_no_token
         assert(builder.request_timestamp is None && builder.canonical_request_sha256 is None);
         assert(names0 =~= split(str_bytes(latin1(self.first_query_decoded(Q_SIGNED_HEADERS()))), 0x3b));
-        assert(is_sorted_names(vals_bytes(signed_headers@), split(str_bytes(latin1(self.first_query_decoded(Q_SIGNED_HEADERS()))), 0x3b)));
+        assert(is_sorted_names(vals_bytes(signed_headers@), split(str_bytes(latin1(self.first_query_decoded(Q_SIGNED_HEADERS()))), 0x3b))); //# C05 C11 C01 C19 name=signed_list_is_the_sorted_decoded_x_amz_signedheaders
     }
 //@ end
 }
